@@ -84,13 +84,14 @@ structure LStep (e : Env) (st : St) (d : Dev) (st' : St) (d' : Dev) (aN : Name) 
   binds : d'.binds = d.binds
   routes : d'.routes = d.routes
   intfs : d'.intfs = d.intfs
+  aclKeys : d'.acls.map (·.1) = d.acls.map (·.1)
 
 theorem LStep.of_gstep_astep {e : Env} {s1 s2 s3 : St} {d1 d2 d3 : Dev} {aN : Name}
     (g : GStep e s1 d1 s2 d2) (a : AStep e s2 d2 s3 d3 aN) : LStep e s1 d1 s3 d3 aN := by
   obtain ⟨c1, o1, e1⟩ := g.out
   obtain ⟨c2, o2, e2⟩ := a.out
   refine ⟨a.sem, ⟨c1 ++ c2, by rw [o2, o1, List.append_assoc], exec_append_some e1 e2⟩, ?_, ?_, ?_, ?_, ?_,
-    a.binds.trans g.binds, a.routes.trans g.routes, a.intfs.trans g.intfs⟩
+    a.binds.trans g.binds, a.routes.trans g.routes, a.intfs.trans g.intfs, by rw [a.aclKeys, g.acls]⟩
   · intro x hx hf
     rw [a.stable x (g.hasMono x hx) (hf.mono g.grow), g.stable x hx hf]
   · exact fun x hx => a.hasMono x (g.hasMono x hx)
@@ -121,7 +122,19 @@ theorem diffASAACLs_astep (e : Env) (hw : WF e) (hA : RefsClosedA e) (hB : RefsC
   rw [diffASAACLs_eq]
   -- first phase
   have g0 := earlyFind_gstep e (e.bLines bN) rs st d h
-  obtain ⟨d1, g1, k1⟩ := cellsPhase_gstep e hw hA aN (e.bLines bN) rs (earlyFind e (e.bLines bN) rs st) [] d g0.sem
+  have hbl : ∀ bi, ∀ g ∈ ((e.bLines bN).getD bi default).refs, g ∈ BNames e := by
+    intro bi g hg
+    by_cases hbi : bi < (e.bLines bN).length
+    · have : (e.bLines bN).getD bi default = (e.bLines bN)[bi] := by
+        rw [List.getD_eq_getElem?_getD, List.getElem?_eq_getElem hbi]; rfl
+      rw [this] at hg
+      exact hB bN _ (List.getElem_mem hbi) g hg
+    · have : (e.bLines bN).getD bi default = default := by
+        rw [List.getD_eq_getElem?_getD, List.getElem?_eq_none (by omega)]; rfl
+      rw [this] at hg
+      have hd : (default : Line).refs = [] := rfl
+      rw [hd] at hg; simp at hg
+  obtain ⟨d1, g1, k1⟩ := cellsPhase_gstep e hw hA aN (e.bLines bN) hbl rs (earlyFind e (e.bLines bN) rs st) [] d g0.sem
     (fun _ _ hm => by simp at hm)
   have hproj := cellsPhase_proj e (e.aLines aN) (e.bLines bN) rs 0 0 (earlyFind e (e.bLines bN) rs st) [] hscript
   unfold planOf at hold hnew hkeep ⊢
@@ -146,17 +159,7 @@ theorem diffASAACLs_astep (e : Env) (hw : WF e) (hA : RefsClosedA e) (hB : RefsC
   have hMk : (encodeCells cells (mkeysOf st1 (e.aLines aN) (e.bLines bN) cells)).getD k default =
       encCell cells (mkeysOf st1 (e.aLines aN) (e.bLines bN) cells) k := encodeCells_getD _ _ k hk
   obtain ⟨d2, a2, l2, i2⟩ := opsFold_astep e hw aN st1 (e.aLines aN) (e.bLines bN) cells
-    (fun bi g hg => by
-      by_cases hbi : bi < (e.bLines bN).length
-      · have : (e.bLines bN).getD bi default = (e.bLines bN)[bi] := by
-          rw [List.getD_eq_getElem?_getD, List.getElem?_eq_getElem hbi]; rfl
-        rw [this] at hg
-        exact hB bN _ (List.getElem_mem hbi) g hg
-      · have : (e.bLines bN).getD bi default = default := by
-          rw [List.getD_eq_getElem?_getD, List.getElem?_eq_none (by omega)]; rfl
-        rw [this] at hg
-        have hd : (default : Line).refs = [] := rfl
-        rw [hd] at hg; simp at hg)
+    hbl
     k hk ⟨ka, kb, hkc⟩ hrun (planASA_shapes cells _) st1 d1 g01.sem rfl hlines1
     (by
       rw [NA.Acl.oldMask_getD _ k (by rw [encodeCells_length]; exact hk), hMk]
@@ -194,7 +197,7 @@ theorem slice_getD {α : Type} (l : List α) (lo hi i : Nat) (dflt : α) (hi1 : 
 
 /-- A device line and a target line: same text up to group names, and the groups match. -/
 def LineOK (e : Env) (st : St) (d : Dev) (l : RLine) (b : Line) : Prop :=
-  l.body = b.body ∧ ∀ p ∈ l.names.zip b.refs, GoodFrozen e st d p.1 p.2
+  l.body = b.body ∧ l.names.length = b.refs.length ∧ ∀ p ∈ l.names.zip b.refs, GoodFrozen e st d p.1 p.2
 
 /-- Kept pairs have equal bodies (they come from the equal ranges of the script). -/
 def KeepBody (al bl : List Line) (cells : List MCell) : Prop :=
@@ -313,7 +316,8 @@ theorem acl_pair_converges (e : Env) (hw : WF e) (hA : RefsClosedA e) (hB : Refs
       (mkeysOf (planOf e st aN bN rs).1 (e.aLines aN) (e.bLines bN) (planOf e st aN bN rs).2) cellOld)
     (hnew : DistinctOn (planOf e st aN bN rs).2
       (mkeysOf (planOf e st aN bN rs).1 (e.aLines aN) (e.bLines bN) (planOf e st aN bN rs).2) cellNew)
-    (hkeep : ∃ k a b, k < (planOf e st aN bN rs).2.length ∧ (planOf e st aN bN rs).2.getD k default = .keep a b) :
+    (hkeep : ∃ k a b, k < (planOf e st aN bN rs).2.length ∧ (planOf e st aN bN rs).2.getD k default = .keep a b)
+    (hlenA : RefsMatchBody (e.aLines aN)) (hlenB : RefsMatchBody (e.bLines bN)) :
     ∃ d', LStep e st d (diffASAACLs e st aN bN rs) d' aN ∧
       (linesOf d' aN).length = (e.bLines bN).length ∧
       ∀ p ∈ (linesOf d' aN).zip (e.bLines bN), LineOK e (diffASAACLs e st aN bN rs) d' p.1 p.2 := by
@@ -348,7 +352,7 @@ theorem acl_pair_converges (e : Env) (hw : WF e) (hA : RefsClosedA e) (hB : Refs
     cases c with
     | del ai => simp [cellNew] at hcn
     | ins bi =>
-      refine ⟨rfl, ?_⟩
+      refine ⟨rfl, by simp [cellRLine, resolveB, bIdx], ?_⟩
       intro x hx
       simp only [cellRLine, resolveB, bIdx] at hx
       have hzz : ∀ (rf : List Name) (f : Name → Name), (rf.map f).zip rf = rf.map (fun g => (f g, g)) := by
@@ -362,9 +366,27 @@ theorem acl_pair_converges (e : Env) (hw : WF e) (hA : RefsClosedA e) (hB : Refs
       rw [hname] at r1 r2 r3
       exact ⟨r1, r2, r3⟩
     | keep ai bi =>
-      refine ⟨hkb ai bi hcm, ?_⟩
-      intro x hx
-      exact hkg ai bi hcm x hx
+      refine ⟨hkb ai bi hcm, ?_, ?_⟩
+      · -- both lines are real lines of their lists (indices from the projections)
+        have hai : ai ∈ cells.filterMap cellA := List.mem_filterMap.mpr ⟨_, hcm, rfl⟩
+        have hbi : bi ∈ cells.filterMap cellB := List.mem_filterMap.mpr ⟨_, hcm, rfl⟩
+        rw [hproj.1] at hai
+        rw [hproj.2] at hbi
+        simp only [List.filterMap_nil, List.nil_append, Nat.sub_zero, List.mem_range'_1] at hai hbi
+        have ha' : (e.aLines aN).getD ai default ∈ e.aLines aN := by
+          rw [List.getD_eq_getElem?_getD, List.getElem?_eq_getElem (by omega)]
+          exact List.getElem_mem _
+        have hb' : (e.bLines bN).getD bi default ∈ e.bLines bN := by
+          rw [List.getD_eq_getElem?_getD, List.getElem?_eq_getElem (by omega)]
+          exact List.getElem_mem _
+        have e1 := hlenA _ ha'
+        have e2 := hlenB _ hb'
+        have e3 := hkb ai bi hcm
+        show ((e.aLines aN).getD ai default).refs.length = ((e.bLines bN).getD bi default).refs.length
+        rw [e3] at e1
+        omega
+      · intro x hx
+        exact hkg ai bi hcm x hx
 
 /-! ## The invariant holds when the engine starts -/
 
@@ -423,5 +445,110 @@ theorem sem_init (a b : Config) (sc : Scripts) (st : St) (managed : List Nat)
     cases hh : hasGroup (ofConfig a) (genName bN (D0 ⟨a, b, sc⟩))
     · rfl
     · exact absurd ((hasGroup_ofConfig a _).mp hh) (genName_fresh bN _)
+
+/-! ## The decidable hypothesis counted by the driver -/
+
+theorem distinctOnB_sound {cells : List MCell} {mkeys : List String} {sel : MCell → Bool}
+    (h : distinctOnB cells mkeys sel = true) : DistinctOn cells mkeys sel := by
+  intro i j hi hj si sj e1
+  unfold distinctOnB at h
+  rw [List.all_eq_true] at h
+  have h1 := h i (List.mem_range.mpr hi)
+  rw [List.all_eq_true] at h1
+  have h2 := h1 j (List.mem_range.mpr hj)
+  simp only [Bool.or_eq_true, beq_iff_eq, Bool.not_eq_true', Bool.and_eq_false_iff] at h2
+  rcases h2 with h2 | (h2 | h2) | h2
+  · exact h2
+  · rw [si] at h2; exact absurd h2 (by simp)
+  · rw [sj] at h2; exact absurd h2 (by simp)
+  · rw [e1] at h2; simp at h2
+
+theorem planCheck_ok (e : Env) (st : St) (aN bN : Name) (rs : List Range) (h : planCheck e st aN bN rs = "hyp:ok") :
+    DistinctOn (planOf e st aN bN rs).2
+      (mkeysOf (planOf e st aN bN rs).1 (e.aLines aN) (e.bLines bN) (planOf e st aN bN rs).2) cellOld ∧
+    DistinctOn (planOf e st aN bN rs).2
+      (mkeysOf (planOf e st aN bN rs).1 (e.aLines aN) (e.bLines bN) (planOf e st aN bN rs).2) cellNew ∧
+    (∃ k a b, k < (planOf e st aN bN rs).2.length ∧ (planOf e st aN bN rs).2.getD k default = .keep a b) := by
+  unfold planCheck at h
+  unfold planOf
+  simp only [] at h
+  generalize cellsPhase e (e.aLines aN) (e.bLines bN) rs (earlyFind e (e.bLines bN) rs st) [] = q at h
+  obtain ⟨st1, cells⟩ := q
+  simp only at h ⊢
+  split at h
+  · exact absurd h (by decide)
+  · rename_i hk
+    split at h
+    · exact absurd h (by decide)
+    · rename_i hd
+      simp only [Bool.not_eq_true', Bool.and_eq_false_iff, not_or, Bool.not_eq_false] at hd hk
+      refine ⟨distinctOnB_sound hd.1, distinctOnB_sound hd.2, ?_⟩
+      obtain ⟨c, hc, hck⟩ := List.any_eq_true.mp hk
+      obtain ⟨k, hk', hkc⟩ := List.getElem_of_mem hc
+      cases c with
+      | keep a b =>
+        exact ⟨k, a, b, hk', by rw [List.getD_eq_getElem?_getD, List.getElem?_eq_getElem hk', hkc]; rfl⟩
+      | ins _ => simp [cellKeep] at hck
+      | del _ => simp [cellKeep] at hck
+
+/-- `acl_pair_converges` with the decidable hypothesis that the model counts on every run (`hyp:ok`). -/
+theorem acl_pair_converges_checked (e : Env) (hw : WF e) (hA : RefsClosedA e) (hB : RefsClosedB e) (st : St) (d : Dev)
+    (h : Sem e st d) (aN bN : Name) (rs : List Range)
+    (hal : linesOf d aN = (e.aLines aN).map resolveA)
+    (hscript : scriptOK ((e.aLines aN).map (·.body)) ((e.bLines bN).map (·.body)) rs 0 0 = true)
+    (hcheck : planCheck e st aN bN rs = "hyp:ok")
+    (hlenA : RefsMatchBody (e.aLines aN)) (hlenB : RefsMatchBody (e.bLines bN)) :
+    ∃ d', LStep e st d (diffASAACLs e st aN bN rs) d' aN ∧
+      (linesOf d' aN).length = (e.bLines bN).length ∧
+      ∀ p ∈ (linesOf d' aN).zip (e.bLines bN), LineOK e (diffASAACLs e st aN bN rs) d' p.1 p.2 := by
+  obtain ⟨h1, h2, h3⟩ := planCheck_ok e st aN bN rs hcheck
+  exact acl_pair_converges e hw hA hB st d h aN bN rs hal hscript h1 h2 h3 hlenA hlenB
+
+/-! ## Decidable forms of the static hypotheses -/
+
+theorem lookupD_nodup (m : List (Name × List String)) (h : m.all (fun p => decide p.2.Nodup) = true) (g : Name) :
+    (lookupD m g).Nodup := by
+  unfold lookupD
+  cases hl : m.lookup g with
+  | none => simp [default]
+  | some v =>
+    have hm := mem_of_lookup hl
+    rw [List.all_eq_true] at h
+    simpa using h _ hm
+
+theorem WF.of_check {e : Env} (h : wfB e = true) : WF e := by
+  unfold wfB at h
+  simp only [Bool.and_eq_true] at h
+  obtain ⟨⟨⟨h1, h2⟩, h3⟩, h4⟩ := h
+  refine ⟨lookupD_nodup _ h1, lookupD_nodup _ h2, by simpa using h3, ?_⟩
+  intro aN bN ha hb hsmall
+  rw [List.all_eq_true] at h4
+  have h5 := h4 aN ha
+  rw [List.all_eq_true] at h5
+  have h6 := h5 bN hb
+  simp only [Bool.or_eq_true, Bool.not_eq_true', decide_eq_false_iff_not, Bool.and_eq_true] at h6
+  rcases h6 with h6 | h6
+  · exact absurd hsmall h6
+  · refine ⟨h6.1, ?_⟩
+    intro m hm
+    have := List.all_eq_true.mp h6.2 m hm
+    simpa using this
+
+theorem RefsClosedB.of_check {e : Env} (h : refsClosedB e = true) : RefsClosedB e := by
+  intro n l hl g hg
+  unfold Env.bLines lookupD at hl
+  cases hlk : e.b.acls.lookup n with
+  | none => rw [hlk] at hl; simp [default] at hl
+  | some ls =>
+    rw [hlk] at hl
+    simp only [Option.getD_some] at hl
+    have hm := mem_of_lookup hlk
+    unfold refsClosedB at h
+    rw [List.all_eq_true] at h
+    have h1 := h _ hm
+    rw [List.all_eq_true] at h1
+    have h2 := h1 l hl
+    rw [List.all_eq_true] at h2
+    simpa using h2 g hg
 
 end NA.F1
